@@ -66,12 +66,26 @@ def cmd_check(prop, tier, seed):
 
 
 def cmd_replay(prop, path):
-    mod = importlib.import_module(prop.lower())
+    """Every random choice of a check derives from (property, seed): a replay re-runs the check of the recorded tier and seed
+    against the current tree and reports whether the recorded violation occurs again (exit 1) or not (exit 0)."""
     payload = json.load(open(path))
+    mod = importlib.import_module(prop.lower())
     if hasattr(mod, "replay"):
         return mod.replay(payload)
-    print(json.dumps(payload, indent=1))
-    return 0
+    what = payload.get("what") or payload.get("broken") or ""
+    tier, seed = payload.get("tier", "quick"), int(payload.get("seed", (payload.get("replay") or {}).get("seed", 0) if isinstance(payload.get("replay"), dict) else 0))
+    print("replaying %s tier=%s seed=%d: %s" % (prop, tier, seed, what[:200]))
+    print(json.dumps(payload.get("replay"), indent=1, default=str)[:3000])
+    before = set(os.listdir(os.path.join(HERE, "replays", prop))) if os.path.isdir(os.path.join(HERE, "replays", prop)) else set()
+    rc = cmd_check(prop, tier, seed)
+    again = False
+    d = os.path.join(HERE, "replays", prop)
+    for f in sorted(set(os.listdir(d)) - before) if os.path.isdir(d) else []:
+        p2 = json.load(open(os.path.join(d, f)))
+        if (p2.get("what") or p2.get("broken") or "")[:80] == what[:80]:
+            again = True
+    print("REPLAY %s: the recorded violation %s" % (prop, "occurs again" if again else "does not occur on the current tree"))
+    return 1 if again else (rc if rc == 2 else 0)
 
 
 def main(argv):
